@@ -29,7 +29,10 @@ def _setup_paths():
 def _point_dump(pt):
     if pt is None:
         return None
-    return dict(seed=str(pt.seed), values={k: v for k, v in pt.v.items()})
+    d = dict(seed=str(pt.seed), values={k: v for k, v in pt.v.items()})
+    if getattr(pt, 'fn_points', None):
+        d['fn_points'] = [list(t) for t in pt.fn_points]
+    return d
 
 
 def _job(args):
@@ -83,6 +86,7 @@ def _job(args):
                     w = r['witness']
                     fresh = core.Point(w.seed, {k: v for k, v in w.v.items()
                                                 if core.CTX.atoms.get(k, {}).get('defn') is None})
+                    fresh.fn_points = getattr(w, 'fn_points', None)
                     try:
                         nat = scen.run_native(fn, cfg, fresh)
                     except Exception as e:
